@@ -125,6 +125,7 @@ def seg_level(cls: int, parent: int, soll: bool, flag2: bool) -> bool:
     pre: 0 <= cls < NCLS and 0 <= parent < 3
     post: _
     """
+    xs.path_start()
     cls, parent = xs.pick(cls, 0, NCLS), xs.pick(parent, 0, 3)
     par = (None, RVV.IS_REQUIRED, RVV.IS_OPTIONAL)[parent]
     node = Segment(discriminator="S", ahb_expression="E#node", data_elements=[], section_name="s", segment_id="00001")
@@ -179,6 +180,7 @@ def group_step(own: int, parent: int, ng: int, ns: int, soll: bool, y0: int, y1:
     pre: WIDE is None or (ng == 0 and ns == 0)
     post: _
     """
+    xs.path_start()
     own, parent, ng, ns = xs.pick(own, 0, 4), xs.pick(parent, 0, 4), xs.pick(ng, 0, 3), xs.pick(ns, 0, 3)
     if WIDE is not None:
         ng, ns = WIDE
@@ -253,6 +255,7 @@ def segment_step(own: int, parent: int, nde: int, soll: bool, y0: int, y1: int) 
     pre: WIDE is None or nde == 0
     post: _
     """
+    xs.path_start()
     own, parent, nde = xs.pick(own, 0, 4), xs.pick(parent, 0, 4), xs.pick(nde, 0, 4)
     if WIDE is not None:
         nde = WIDE
@@ -313,6 +316,7 @@ def deep_step(n: int, soll: bool, y0: int, y1: int, y2: int) -> bool:
     pre: WIDE is None or n == 0
     post: _
     """
+    xs.path_start()
     from maus.models.anwendungshandbuch import AhbMetaInformation, DeepAnwendungshandbuch
 
     n = xs.pick(n, 0, 4)
@@ -353,6 +357,7 @@ def dispatch_step(kind: int, seg: int, soll: bool, inp: int) -> bool:
     pre: 0 <= kind < 2 and 0 <= seg < 3 and 0 <= inp < len(DISPATCH_INPUTS)
     post: _
     """
+    xs.path_start()
     kind, seg, inp = xs.pick(kind, 0, 2), xs.pick(seg, 0, 3), xs.pick(inp, 0, len(DISPATCH_INPUTS))
     calls = []
     entered = DISPATCH_INPUTS[inp]
@@ -399,6 +404,7 @@ def freetext_step(cls: int, seg: int, soll: bool, inp: int, fc: bool, flag2: boo
     pre: (FIXSEG < 0 or seg == FIXSEG) and 0 <= cls < NCLS and 0 <= seg < 3 and 0 <= inp < 3
     post: _
     """
+    xs.path_start()
     cls, seg, inp = xs.pick(cls, 0, NCLS), xs.pick(seg, 0, 3), xs.pick(inp, 0, 3)
     segst = (None, RVV.IS_REQUIRED, RVV.IS_OPTIONAL)[seg]
     fc_c = bool(xs.R(fc))
@@ -464,6 +470,7 @@ def valuepool_step(n: int, c0: int, c1: int, c2: int, seg: int, inp: int, y0: in
     pre: 1 <= n <= 3 and 0 <= c0 < 4 and 0 <= c1 < 4 and 0 <= c2 < 4 and 0 <= seg < 3 and 0 <= inp < len(VP_INPUTS) and 0 <= y0 <= 1
     post: _
     """
+    xs.path_start()
     # entry classes: 0 fulfilled, 1 unfulfilled, 2 undetermined, 3 invalid expression
     n, seg, inp, y0 = xs.pick(n, 1, 4), xs.pick(seg, 0, 3), xs.pick(inp, 0, len(VP_INPUTS)), xs.pick(y0, 0, 2)
     cs = [xs.pick(c, 0, 4) for c in (c0, c1, c2)][:n]
